@@ -122,10 +122,18 @@ func (c *c39State) postDeliver(rt *rapid.T, w *nsWorld, h *nsHist, p *nsPacket, 
 			continue
 		}
 		// the relay forwarded something in reaction to a relay-typed datagram from host xi
-		c.forwarded++
 		if !c.amRelay {
-			rt.Fatalf("node %s is not configured as a relay (am_relay off) but forwarded %v in reaction to %v", r.name, q, in)
+			// A node that is no relay may still be the END of a relayed tunnel (another host - here only a
+			// harness-controlled one - relays for it) and then answers relay-typed datagrams with relay-typed
+			// datagrams of its own (a handshake reply, an echo). Forwarding re-encrypts the inner bytes
+			// unchanged, so that is what identifies it.
+			if len(in.Data) == len(q.Data) && len(in.Data) >= header.Len+16 && bytes.Equal(in.Data[header.Len:len(in.Data)-16], q.Data[header.Len:len(q.Data)-16]) {
+				rt.Fatalf("node %s is not configured as a relay (am_relay off) but forwarded %v in reaction to %v", r.name, q, in)
+			}
+			vk.Label(w.pidLabel(), "non-relay-answers-through-a-relay")
+			continue
 		}
+		c.forwarded++
 		yn := w.s.nodeByUDP(q.To)
 		yi := -1
 		if yn != nil {
